@@ -5,7 +5,7 @@ From Verif Require Import C08.Model C08.Spec C08.Proofs.
 Import ListNotations.
 Open Scope Z_scope.
 
-Definition storable (node : Z) (p : pod) : bool := negb ((node =? 0) || p_term p || p_resv p).
+Definition storable (node : Z) (p : pod) : bool := negb ((node =? 0) || terminated p || p_resv p).
 
 Lemma pod_info_zero c uid : pod_info c 0 uid = None.
 Proof. reflexivity. Qed.
@@ -17,7 +17,7 @@ Lemma pod_info_assign cfg now node p c node' uid' :
     then Some (mk_pinfo cfg now p) else pod_info c node' uid'.
 Proof.
   unfold assign, storable.
-  destruct ((node =? 0) || p_term p || p_resv p) eqn:Eg; cbn [negb andb]; [reflexivity|].
+  destruct ((node =? 0) || terminated p || p_resv p) eqn:Eg; cbn [negb andb]; [reflexivity|].
   apply orb_false_elim in Eg. destruct Eg as [Eg _]. apply orb_false_elim in Eg. destruct Eg as [En _].
   unfold pod_info. destruct (node' =? 0) eqn:E0.
   - destruct (node' =? node) eqn:E1; [|reflexivity].
@@ -64,7 +64,11 @@ Proof.
 Qed.
 
 Lemma spec_eqb_refl p : spec_eqb p p = true.
-Proof. unfold spec_eqb. now rewrite !Z.eqb_refl, !vec_eqb_refl. Qed.
+Proof.
+  unfold spec_eqb. rewrite !Z.eqb_refl, oz_eqb_refl, ovec_eqb_refl.
+  rewrite (list_eqb_refl ctr_eqb) by apply ctr_eqb_refl.
+  now rewrite (list_eqb_refl ictr_eqb) by apply ictr_eqb_refl.
+Qed.
 Lemma cond_eqb_refl p : cond_eqb p p = true.
 Proof.
   unfold cond_eqb, cond_eqb1. rewrite !Z.eqb_refl. cbn [andb]. now rewrite !orb_true_r.
@@ -81,7 +85,7 @@ Proof.
   assert (H1 : pod_info c1 old (p_uid p) = None).
   { unfold c1. rewrite pod_info_unassign, !Z.eqb_refl. reflexivity. }
   destruct (pod_info c1 (p_node p) (p_uid p)) as [o|].
-  - destruct (p_term p).
+  - destruct (terminated p).
     + rewrite pod_info_unassign, Hne. exact H1.
     + destruct (negb (spec_eqb p (pi_pod o)) || negb (cond_eqb p (pi_pod o))); [|exact H1].
       rewrite pod_info_assign, Hne. now rewrite andb_false_r.
@@ -97,7 +101,7 @@ Lemma on_update_stores cfg now old p c :
 Proof.
   intro Hst. unfold on_update.
   set (c1 := if negb (old =? 0) && negb (old =? p_node p) then unassign old (p_uid p) c else c).
-  assert (Hterm : p_term p = false).
+  assert (Hterm : terminated p = false).
   { unfold storable in Hst. apply negb_true_iff in Hst.
     apply orb_false_elim in Hst. destruct Hst as [Hst _]. now apply orb_false_elim in Hst. }
   assert (Hnew : exists pi, pod_info (assign cfg now (p_node p) p c1) (p_node p) (p_uid p) = Some pi
@@ -113,7 +117,7 @@ Qed.
 
 (* a terminated pod is dropped from its node *)
 Lemma on_update_drops_terminated cfg now old p c :
-  p_term p = true -> pod_info (on_update cfg now old p c) (p_node p) (p_uid p) = None.
+  terminated p = true -> pod_info (on_update cfg now old p c) (p_node p) (p_uid p) = None.
 Proof.
   intro Ht. unfold on_update.
   set (c1 := if negb (old =? 0) && negb (old =? p_node p) then unassign old (p_uid p) c else c).
@@ -141,7 +145,7 @@ Definition involves (o : op) (k : Z) : bool :=
   | OAdd _ p | ODelete _ p => p_node p =? k
   | OUpdate _ old p => (old =? k) || (p_node p =? k)
   | OMetric _ node _ | OMetricDel _ node => node =? k
-  | OFilter _ _ _ => false
+  | OFilter _ _ _ | ONop _ | OScore _ _ _ => false
   end.
 
 Lemma put_or_cleanup_other (c : cache) node n k :
@@ -155,7 +159,7 @@ Qed.
 Lemma assign_other cfg now node p c k :
   (node =? k) = false -> alookup k (assign cfg now node p c) = alookup k c.
 Proof.
-  intro H. unfold assign. destruct ((node =? 0) || p_term p || p_resv p); [reflexivity|].
+  intro H. unfold assign. destruct ((node =? 0) || terminated p || p_resv p); [reflexivity|].
   now rewrite alookup_aset, H.
 Qed.
 
@@ -180,12 +184,14 @@ Proof.
     { unfold c1. destruct (negb (old_node =? 0) && negb (old_node =? p_node p));
         [now apply unassign_other|reflexivity]. }
     destruct (pod_info c1 (p_node p) (p_uid p)) as [o|]; [|now rewrite assign_other].
-    destruct (p_term p); [now rewrite unassign_other|].
+    destruct (terminated p); [now rewrite unassign_other|].
     destruct (negb (spec_eqb p (pi_pod o)) || negb (cond_eqb p (pi_pod o)));
       [now rewrite assign_other|exact Hc1].
   - now apply unassign_other.
   - unfold set_metric. now rewrite alookup_aset, H.
   - unfold del_metric. destruct (alookup node c); [|reflexivity]. now apply put_or_cleanup_other.
+  - reflexivity.
+  - reflexivity.
   - reflexivity.
 Qed.
 
@@ -250,7 +256,7 @@ Proof.
       destruct (p_uid p =? u); [|now rewrite andb_false_r].
       cbn [andb] in H. apply orb_false_elim in H. destruct H as [_ H2]. now rewrite H2. }
     destruct (pod_info c1 (p_node p) (p_uid p)) as [o|].
-    + destruct (p_term p).
+    + destruct (terminated p).
       * now rewrite pod_info_unassign, Hmatch.
       * destruct (negb (spec_eqb p (pi_pod o)) || negb (cond_eqb p (pi_pod o))); [|exact Hc1].
         rewrite pod_info_assign, <- andb_assoc, Hmatch. now rewrite andb_false_r.
@@ -258,6 +264,8 @@ Proof.
   - rewrite pod_info_unassign. now rewrite (Z.eqb_sym k (p_node p)), (Z.eqb_sym u (p_uid p)), H.
   - apply pod_info_set_metric.
   - apply pod_info_del_metric.
+  - reflexivity.
+  - reflexivity.
   - reflexivity.
 Qed.
 
